@@ -39,6 +39,12 @@ func verifC20_TrafficObjects() {
 			verifAssert(inst.inits == 1 && inst.inherits == 0 && inst.closed == 0, "created-object-initialised-exactly-once")
 			live[o] = inst
 		case 1:
+			// the new generation's Inherit may panic (the panic is recovered by the entity): the
+			// name is still configured, so the new generation is the live one all the same
+			inst.panicInherit = verifBool("op.inheritPanics")
+			if inst.panicInherit && live[o] != nil {
+				verifCover("inherit-panicked")
+			}
 			if o == 0 {
 				_, err = tc.UpdateTrafficGate(ns, e)
 			} else {
